@@ -1,5 +1,6 @@
 """C17 — Only in-space actions are executed, as the allocation they denote."""
 import ast
+import re
 from sa.lib import *
 from sa.exc import ExcAnalysis
 from sa.dataflow import cmp_key, cmp_atoms
@@ -132,8 +133,8 @@ def s3(ck, an):
     # x is only re-bound by a dtype conversion of itself
     for d in fa.rd.defs:
         if d.var == x and d.kind == "assign":
-            v = ast.unparse(d.value)
-            ck.check(("asarray" in v or "array" in v) and x in [n.id for n in ast.walk(d.value) if isinstance(n, ast.Name)], "ARGFLOW", "S3.box-contains-same-x", subj,
+            v = fa.sym.canon(d.value, d.node)        # value id: the conversion may sit in a helper / behind a temporary
+            ck.check(("asarray(" in v or "array(" in v) and re.search(r"\b%s\b" % re.escape(x), v) is not None, "ARGFLOW", "S3.box-contains-same-x", subj,
                      fa.loc(d.ast), "x is only converted to an array before the tests", f"x is replaced by {v} before the membership tests", construct=ast.unparse(d.ast))
     # MRO exhaustiveness
     ps = an.prog.cls("PortfolioSpace")
